@@ -66,6 +66,7 @@ pub mod spawn_hook {
         StandardSource,
     };
     pub use super::super::spawn::nts_pool::NtsPoolSpawner;
+    pub use super::super::spawn::nts_pool::verif_hook as nts_pool_hook;
     pub use super::super::spawn::pool::PoolSpawner;
     pub use super::super::spawn::standard::StandardSpawner;
     pub use super::super::spawn::{
